@@ -33,6 +33,15 @@
 (*                   MaxIdleConns / MaxConnsPerHost from proxy.maxconn      *)
 (*   LateSetConfig   main() sets the configuration only after the first     *)
 (*                   table was built                                        *)
+(*   HandlerDeviation "gzipdelay": the compressing handler in front of the  *)
+(*                   transport swallows a status that comes without a body; *)
+(*                   "expectwait": the transport waits for 100 Continue     *)
+(*                   before it sends the body of an Expect request          *)
+(*                                                                         *)
+(* Value ranges: the options keep the meaning of the Go fields they are     *)
+(* documented to configure: a timeout of 0 is "none", proxy.maxconn 0 is    *)
+(* Go's default, keep-alive 0 is Go's default probe idle time (15 s) and a  *)
+(* NEGATIVE keep-alive switches the probes off (net.Dialer.KeepAlive).      *)
 (***************************************************************************)
 EXTENDS Integers, Sequences, FiniteSets
 
@@ -40,7 +49,7 @@ CONSTANTS
     Configs,        \* records [name, dial, rht, ka, idle, maxidle]; durations in ms, all positive
     DelayClasses,   \* {"zero", "below", "above"}: upstream delay relative to the response-header timeout
     MaxOps,
-    SelfAssign, ExtraLimit, LateSetConfig
+    SelfAssign, ExtraLimit, LateSetConfig, HandlerDeviation
 
 Kinds == {"default", "insecure", "hostoverride"}
 Zero == [name |-> "zero", dial |-> 0, rht |-> 0, ka |-> 0, idle |-> 0, maxidle |-> 0]   \* Go zero values: unlimited
@@ -103,6 +112,23 @@ NewConnsAfterBursts(vals, extra, n) ==
         keptA == IF extra.maxidletotal > 0 THEN Min(perhost, Max2(0, extra.maxidletotal - perhost)) ELSE perhost
     IN n - keptA
 
+\* what a dialled connection shows of proxy.keepalivetimeout (ms): -1 = probes off, else the
+\* idle time in seconds before the first probe
+KeepIdleOf(ka) == IF ka < 0 THEN -1 ELSE IF ka = 0 THEN 15 ELSE ka \div 1000
+
+\* The handlers fabio puts in front of the transport (compression when proxy.gzip.contenttype
+\* is set and the client accepts gzip, the access log) and the kind of request (GET, HEAD,
+\* POST with a body, POST with "Expect: 100-continue") do not change what the client sees.
+Wraps == {"plain", "gzip", "log", "gzip+log"}
+ReqKinds == {"GET", "HEAD", "POST", "EXPECT"}
+Served(vals, d, wrap, req) ==
+    LET o == Outcome(vals, d) IN
+    IF HandlerDeviation = "gzipdelay" /\ wrap \in {"gzip", "gzip+log"} /\ o.status = 504
+    THEN [o EXCEPT !.status = 200]
+    ELSE IF HandlerDeviation = "expectwait" /\ req = "EXPECT" /\ o.status = 504
+    THEN [o EXCEPT !.within = @ + 1000]
+    ELSE o
+
 Next == \/ \E c \in Configs : SetConfig(c)
         \/ \E k \in {"default", "insecure"} : NewTransport(k)
         \/ AddTargetTransport
@@ -123,18 +149,25 @@ CarriesConfigured ==
 
 \* ... and therefore a slow upstream is cut off, a timely one is served
 LimitsEnforced ==
-    \A n \in DOMAIN built : built[n].want # Zero =>
+    \A n \in DOMAIN built : built[n].want.rht > 0 =>
         \A cl \in DelayClasses :
             LET T == built[n].want.rht
                 o == Outcome(built[n].vals, DelayOf(cl, T)) IN
             IF cl = "above" THEN o.status = 504 /\ o.within <= T ELSE o.status = 200
+
+\* ... whatever handlers wrap the transport and whatever kind of request it is
+HandlersTransparent ==
+    \A n \in DOMAIN built : built[n].want.rht > 0 =>
+        \A cl \in DelayClasses : \A w \in Wraps : \A r \in ReqKinds :
+            LET d == DelayOf(cl, built[n].want.rht) IN
+            Served(built[n].vals, d, w, r) = Outcome(built[n].want, d)
 
 \* ... no other limit is introduced
 NoOtherLimit == \A n \in DOMAIN built : built[n].extra = NoExtra
 \* ... so k concurrent requests to a hanging upstream are ALL cut off within the timeout
 Burst(m) == {1, m, m + 1, 10 * m}
 ConcurrencyBounded ==
-    \A n \in DOMAIN built : built[n].want # Zero =>
+    \A n \in DOMAIN built : built[n].want.rht > 0 =>
         LET T == built[n].want.rht IN
         \A k \in Burst(built[n].want.maxidle) :
             LET r == Concurrent(built[n].vals, built[n].extra, k, DelayOf("above", T)) IN
